@@ -747,6 +747,16 @@ func (e *kvElection) StopWithContext(ctx context.Context, opts StopOptions) erro
 		}
 	}
 
+	// one deadline for the whole call: waiting for the goroutines, the store operations of
+	// DeleteKey and waiting for OnDemote share the time-out instead of getting it once each
+	deadline := time.Now().Add(timeout)
+	remaining := func() time.Duration {
+		if d := time.Until(deadline); d > 0 {
+			return d
+		}
+		return 0
+	}
+
 	// Leadership was given up above. Whichever way this call ends, OnDemote is due exactly once:
 	// the paths that return an error run it in the background.
 	demoteOnAbort := func() {
@@ -795,31 +805,29 @@ func (e *kvElection) StopWithContext(ctx context.Context, opts StopOptions) erro
 		)...,
 	)
 
-	if opts.DeleteKey && wasLeader && !e.ownsRecord() {
-		// the record was lost (expired, taken over, removed) before this stop: deleting the
-		// key now would remove a successor's record
-		log := e.getLogger()
-		log.Warn("key_not_deleted_not_owner",
-			append(e.logWithContext(ctx),
-				zap.String("key", e.key),
-			)...,
-		)
-	} else if opts.DeleteKey && wasLeader {
-		if err := e.kv.Delete(e.key); err != nil {
-			log := e.getLogger()
-			log.Warn("key_deletion_failed",
+	if opts.DeleteKey && wasLeader {
+		// The owner check and the Delete go to the store: an unreachable store must not hold the
+		// shutdown beyond its time-out.
+		deleted := make(chan struct{})
+		go func() {
+			defer close(deleted)
+			e.deleteOwnRecord(ctx, deadline)
+		}()
+
+		select {
+		case <-deleted:
+		case <-time.After(remaining()):
+			log.Warn("key_deletion_timeout",
 				append(e.logWithContext(ctx),
-					zap.Error(err),
+					zap.Duration("timeout", timeout),
 					zap.String("key", e.key),
 				)...,
 			)
-		} else {
-			log := e.getLogger()
-			log.Info("key_deleted",
-				append(e.logWithContext(ctx),
-					zap.String("key", e.key),
-				)...,
-			)
+			demoteOnAbort()
+			return fmt.Errorf("shutdown timeout exceeded: %v", timeout)
+		case <-ctx.Done():
+			demoteOnAbort()
+			return ctx.Err()
 		}
 	}
 
@@ -847,7 +855,7 @@ func (e *kvElection) StopWithContext(ctx context.Context, opts StopOptions) erro
 
 				select {
 				case <-done:
-				case <-time.After(timeout):
+				case <-time.After(remaining()):
 					log.Warn("ondemote_callback_timeout",
 						append(e.logWithContext(ctx),
 							zap.Duration("timeout", timeout),
@@ -865,6 +873,40 @@ func (e *kvElection) StopWithContext(ctx context.Context, opts StopOptions) erro
 	}
 
 	return nil
+}
+
+// deleteOwnRecord removes the leadership record if it is still this instance's. It gives up without
+// touching the store once the caller's deadline or context has expired.
+func (e *kvElection) deleteOwnRecord(ctx context.Context, deadline time.Time) {
+	log := e.getLogger()
+	if !e.ownsRecord() {
+		// the record was lost (expired, taken over, removed) before this stop: deleting the
+		// key now would remove a successor's record
+		log.Warn("key_not_deleted_not_owner",
+			append(e.logWithContext(ctx),
+				zap.String("key", e.key),
+			)...,
+		)
+		return
+	}
+	if ctx.Err() != nil || !time.Now().Before(deadline) {
+		// StopWithContext has returned by now: no further store operation
+		return
+	}
+	if err := e.kv.Delete(e.key); err != nil {
+		log.Warn("key_deletion_failed",
+			append(e.logWithContext(ctx),
+				zap.Error(err),
+				zap.String("key", e.key),
+			)...,
+		)
+	} else {
+		log.Info("key_deleted",
+			append(e.logWithContext(ctx),
+				zap.String("key", e.key),
+			)...,
+		)
+	}
 }
 
 // ownsRecord reports whether the leadership record currently stored carries this
